@@ -19,4 +19,5 @@ def build(u):
     u.spec("tlv_get_proved.rs")
     u.spec("tlv_get.rs", shared=True)
     u.impl(t, "SerializedTlvStream", ["get", "remove"], "tlv")
+    u.auto_here(t, "tlv")
     u.raw("}\n} // verus!\nfn main() {}\n")
